@@ -5,6 +5,10 @@
      (id describe TYPESTRS LAYOUT)      LAYOUT in the core syntax (ocaml/rd.ml); TYPESTRS = (((k..) (v..))...)
      (id fromjson TYPESTRS (b...))      a JSON text (bytes)
      (id parsetype (b...))              a type string (bytes): model's type_parse, printed back
+     (id larkparse HL (b...))           a type string (bytes): Lark.v's lark_parse_full / lark_parse (the model of the
+                                        repository's from_datashape(s, high_level=HL), HL = 0 | 1); prints the parsed
+                                        type as a tree: (tree T) (array 0|1: an ArrayType occurs) (lp ok|oob) (larkok 0|1)
+                                        (printed (b...)), or (id err value|fuel|other)
    output:
      (id ok (k v)...) | (id err) | (id bad (msg))
 
@@ -303,6 +307,38 @@ let features (t : rty) : string list =
           List.iter go l) in
   go t; !fs
 
+(* ---------------------------------------------------------------- an rty as a tree (larkparse): nothing is decided here,
+   the harness maps this text and the repository parser's object tree to one canonical form
+     T = (num P TS (b..)) | (unk P TS) | (list P TS T) | (reg P TS n T) | (opt P TS T)
+       | (rec P TS none|(keys (b..)...) (T...)) | (union P TS (T...))
+     P = ((pm (b..) J)...)   TS = (b..)
+     J = null | true | false | (i n) | (d (b..)) | (s (b..)) | (a J...) | (o (pm (b..) J)...) *)
+let rec json_tree (j : json) : string =
+  match j with
+  | JNull -> "null"
+  | JBool true -> "true"
+  | JBool false -> "false"
+  | JInt z -> "(i " ^ string_of_z z ^ ")"
+  | JDbl t -> "(d " ^ sx_of_bytes t ^ ")"
+  | JStr s -> "(s " ^ sx_of_bytes s ^ ")"
+  | JArr l -> "(a" ^ String.concat "" (List.map (fun x -> " " ^ json_tree x) l) ^ ")"
+  | JObj m -> "(o" ^ String.concat "" (List.map (fun (k, v) -> " (pm " ^ sx_of_bytes k ^ " " ^ json_tree v ^ ")") m) ^ ")"
+let params_tree (p : params) : string =
+  "(" ^ String.concat " " (List.map (fun (k, v) -> "(pm " ^ sx_of_bytes k ^ " " ^ json_tree v ^ ")") p) ^ ")"
+let rec rty_tree (t : rty) : string =
+  let many l = "(" ^ String.concat " " (List.map rty_tree l) ^ ")" in
+  match t with
+  | RNum (p, ts, dt) -> "(num " ^ params_tree p ^ " " ^ sx_of_bytes ts ^ " " ^ sx_of_bytes (dtype_to_name dt) ^ ")"
+  | RUnk (p, ts) -> "(unk " ^ params_tree p ^ " " ^ sx_of_bytes ts ^ ")"
+  | RList (p, ts, t') -> "(list " ^ params_tree p ^ " " ^ sx_of_bytes ts ^ " " ^ rty_tree t' ^ ")"
+  | RReg (p, ts, n, t') -> "(reg " ^ params_tree p ^ " " ^ sx_of_bytes ts ^ " " ^ string_of_z n ^ " " ^ rty_tree t' ^ ")"
+  | ROpt (p, ts, t') -> "(opt " ^ params_tree p ^ " " ^ sx_of_bytes ts ^ " " ^ rty_tree t' ^ ")"
+  | RRec (p, ts, ks, l) ->
+    "(rec " ^ params_tree p ^ " " ^ sx_of_bytes ts ^ " "
+    ^ (match ks with None -> "none" | Some ks -> "(keys" ^ String.concat "" (List.map (fun k -> " " ^ sx_of_bytes k) ks) ^ ")")
+    ^ " " ^ many l ^ ")"
+  | RUnion (p, ts, l) -> "(union " ^ params_tree p ^ " " ^ sx_of_bytes ts ^ " " ^ many l ^ ")"
+
 (* everything derivable from a form *)
 let form_block (ts : typestrs) (f : form) : string =
   let t = type_of_form ts f in
@@ -386,6 +422,21 @@ let handle (line : string) : string =
           (match type_parse (bytes_of_sx txt) with
            | Ok t -> "(" ^ id ^ " ok " ^ kv "printed" (sx_of_bytes (type_tostring t)) ^ " " ^ kv "printable" (b01 (printable t)) ^ ")"
            | Err _ -> "(" ^ id ^ " err)")
+        | "larkparse", [A hl; txt] ->
+          let hl = (match hl with "0" -> false | "1" -> true | _ -> bad "HL must be 0 or 1") in
+          let s = bytes_of_sx txt in
+          let errname = function EValue -> "value" | EFuel -> "fuel" | _ -> "other" in
+          (match lark_parse_full hl s, lark_parse hl s with
+           | Ok (t, arr), lp ->
+             let lps = (match lp with
+                 | Ok t2 -> if t2 = t then "ok" else "BAD-differs"
+                 | Err EOob -> "oob"
+                 | Err _ -> "BAD-err") in
+             "(" ^ id ^ " ok " ^ String.concat " " [
+               kv "tree" (rty_tree t); kv "array" (b01 arr); kv "lp" lps; kv "larkok" (b01 (lark_ok hl t));
+               kv "printed" (sx_of_bytes (type_tostring t)) ] ^ ")"
+           | Err e, Err e2 -> if e = e2 then "(" ^ id ^ " err " ^ errname e ^ ")" else "(" ^ id ^ " bad (lark_parse and lark_parse_full fail differently))"
+           | Err _, Ok _ -> "(" ^ id ^ " bad (lark_parse succeeds where lark_parse_full fails))")
         | _ -> "(" ^ id ^ " bad (unknown op " ^ op ^ "))")
      with
      | Bad s -> "(" ^ id ^ " bad (" ^ s ^ "))"
